@@ -488,7 +488,7 @@ impl Kernel {
                 rec.done = true;
                 self.records.push(rec);
                 if res != 0 || sqe.flags() & SQE_CQE_SKIP_SUCCESS == 0 {
-                    self.post(r, Cqe { user_data: ud, res, flags: 0 });
+                    self.post_inline(r, Cqe { user_data: ud, res, flags: 0 });
                 }
                 return;
             }
@@ -498,7 +498,7 @@ impl Kernel {
                 rec.done = true;
                 self.records.push(rec);
                 if res != 0 || sqe.flags() & SQE_CQE_SKIP_SUCCESS == 0 {
-                    self.post(r, Cqe { user_data: ud, res, flags: 0 });
+                    self.post_inline(r, Cqe { user_data: ud, res, flags: 0 });
                 }
                 return;
             }
@@ -586,7 +586,7 @@ impl Kernel {
             self.records.push(rec);
             self.prep_refused = true;
             stats::inc(C::total_ops_completed);
-            self.post(r, Cqe { user_data: ud, res, flags: 0 });
+            self.post_inline(r, Cqe { user_data: ud, res, flags: 0 });
             return;
         }
         self.records.push(rec);
@@ -628,7 +628,7 @@ impl Kernel {
         rec.cqes.push((res, 0));
         rec.done = true;
         if res != 0 || !skip {
-            self.post(r, Cqe { user_data: ud, res, flags: 0 });
+            self.post_inline(r, Cqe { user_data: ud, res, flags: 0 });
         }
     }
 
